@@ -116,6 +116,10 @@ def run(plan):
             n0 = len(dev.log)
             # the token the client is configured with at this moment (its public attribute)
             expected_tok = bytes.fromhex(ac.token) if ac.token else None
+            if not any_cancel[0]:
+                # the model's own view: the token of the last authenticate() that succeeded (after a cancelled
+                # handshake what was stored is not determined, and the object's attribute is taken instead)
+                expected_tok = stored[0]
             if kind in ("auth", "lan_auth"):
                 tok, _k = s.creds(op.get("cred", "good"))
                 expected_tok = bytes.fromhex(tok) if isinstance(tok, str) else tok
